@@ -683,7 +683,29 @@ func runCase(cs *caseSpec, scratch string, res *caseResult) {
 			}
 			s.tcp = sink
 		}
-		if !s.ctl.waitCommits(len(evs), 60*time.Second) {
+		// a bisection of n events needs at most 2n-1 requests; add the scripted
+		// failures, the plugin's 10 retries and a margin
+		maxReq := 4*len(evs) + 2*b.Plan.FailFirst + 40
+		committed, storm := s.waitBatch(len(evs), maxReq, 60*time.Second)
+		if storm {
+			s.abandoned = true
+			res.Evals++
+			res.count("batches."+c.Plugin, 1)
+			res.count("batches_failed."+c.Plugin, 1)
+			f := &failure{Site: "split", Fail: "more-requests-for-one-batch-than-any-bisection-needs", Idx: -1,
+				Detail: fmt.Sprintf("%d requests seen for a batch of %d events (bound %d) and the batch is still not committed: the resend does not terminate", s.requestCount(), len(evs), maxReq)}
+			if len(exp) > 0 {
+				f.Trigger = s.trigger("split", &exp[0], b)
+			}
+			caps := s.rec.take()
+			if len(caps) > 8 {
+				caps = caps[:8]
+			}
+			report(bi, b, &batchJudge{s: s, b: b, exp: exp, fails: []*failure{f}}, caps)
+			return
+		}
+		if !committed {
+			s.abandoned = true
 			res.Inconclusive = append(res.Inconclusive, fmt.Sprintf("watchdog: batch not committed (%s, %s)", c.Plugin, b.Shape))
 			return
 		}
@@ -836,6 +858,7 @@ func runConcurrent(cs *caseSpec, s *session, res *caseResult, report func(int, *
 		}
 	}
 	if !s.ctl.waitCommits(total, 60*time.Second) {
+		s.abandoned = true
 		res.Inconclusive = append(res.Inconclusive, "watchdog: concurrent case not committed ("+c.Plugin+")")
 		return
 	}
